@@ -55,6 +55,7 @@ def dispatch (prop : String) (line : String) : Verdict :=
     | some "sockcr" => SockE.runCr prop f obsS
     | some "holder" => HolderE.runHolder prop f obsS
     | some "mac" => MacrosE.runMac prop f obsS
+    | some "macn" => MacrosE.runMac prop f obsS
     | _ => badCase
   | _ => badCase
 
